@@ -106,6 +106,7 @@ func replayConc(h *History) *runner {
 //   - Store.Get walking a pending *Tree while Commit's save() empties the same object;
 //   - two of Commit / Rollback on the same hash at once (Load and Delete on the table are two
 //     steps: both callers can be acknowledged; two Commits would save one *Tree twice).
+//
 // So per phase every hash has at most one consumer (Commit or Rollback), a hash that is being
 // committed is not read while it may still be pending, and "commit phases" read committed
 // roots only.
